@@ -24,6 +24,7 @@ var verifNotified []types.Uid
 var verifPrevBase = types.ModeCPublic // fixed bits of the former member's stored modes
 var verifForceActor = -1              // index into allUsers(), -1 = any
 var verifForceTarget = -1             // index into allUsers() for {set sub user=...}, -1 = any
+var verifSubChanTopic = false         // channel-enabled group; requests may then be addressed by the chn name
 
 // bits of every requested/granted/stored mode that are symbolic (a knob: focused harnesses widen it)
 var verifSubBits = types.ModeOwner | types.ModeJoin | types.ModeApprove | types.ModeShare
@@ -53,7 +54,11 @@ func (w *verifSubWorld) isOwnerMode(p perUserData) bool {
 
 func verifSubSetup(nMembers int) *verifSubWorld {
 	w := &verifSubWorld{}
-	fx := verifNewTopic(verifKindGrp, nMembers)
+	kind := verifKindGrp
+	if verifSubChanTopic {
+		kind = verifKindChn
+	}
+	fx := verifNewTopic(kind, nMembers)
 	w.fx, w.t = fx, fx.topic
 	t := w.t
 	verifNotified = nil
@@ -167,6 +172,10 @@ func (w *verifSubWorld) step(opFixed int) (op int, target types.Uid, replies []*
 	target = w.actor
 	base := ClientComMessage{Id: "r1", AsUser: w.actor.UserId(), AuthLvl: int(auth.LevelAuth), Original: t.name, RcptTo: t.name,
 		Timestamp: types.TimeNow(), sess: sess, init: true}
+	if verifSubChanTopic && verifNondetBool("addressedByChannelName") {
+		// expandTopicName routes chnX to the grpX topic; the handlers see the channel spelling in Original
+		base.Original = types.GrpToChn(t.name)
+	}
 	switch op {
 	case verifOpSub:
 		// {sub} by a session that is not attached yet
@@ -281,6 +290,15 @@ func harnessC06Step(nMembers, op int) {
 }
 
 func Harness_C06_step_2()            { harnessC06Step(2, -1) }
+// channel-enabled group, requests addressed by either spelling of the name
+func Harness_C06_step_chn_leaveunsub() {
+	verifSubChanTopic = true
+	harnessC06Step(2, verifOpLeaveUnsub)
+}
+func Harness_C06_step_chn_delsub() {
+	verifSubChanTopic = true
+	harnessC06Step(2, verifOpDelSub)
+}
 func Harness_C06_step_3_sub()        { harnessC06Step(3, verifOpSub) }
 func Harness_C06_step_3_setself()    { harnessC06Step(3, verifOpSetSelf) }
 func Harness_C06_step_3_setother()   { harnessC06Step(3, verifOpSetOther) }
